@@ -123,14 +123,21 @@ CHECKS = {
              'lookups of the model on every sentence form is checked by injection, not proved.',
         design='DESIGN.md §6 C17'),
     'C15': dict(
-        technique='Lean 4 proof about the string layer of the explanation printer + correspondence; selection / mention / distinctness / read-back search on real answer sets and telingo traces',
-        text='Lean theorems (string layer): the final capitalisation changes at most the first character, so no value is altered; every value '
-             'handed to the entity printer occurs in the printed text, for any number of attributes; copula normalisation is total.',
-        note='Trusted: Lean kernel; unit correspondence with the real _entity_printer / _convert_verb. PARTIAL: the matching of an atom\'s '
-             'arguments to subject / objects (stateful list surgery in the result parser) is not modelled in Lean; selection, order, mention '
-             'of every value, distinctness, read-back round trip and per-state grouping are decided by the search on real clingo answer sets '
-             '(~220 per quick run) and real telingo traces, i.e. sampled, not proved. Genuine defect F9 repaired by a fix: commit; F26 known finding.',
-        design='DESIGN.md §6 C15'),
+        technique='Lean 4 proof about executable models of the explanation printer: the string layer and the sentence-construction layer '
+                  '(_clingo_symbol_to_sentence), with sentence-by-sentence correspondence against the real result parser; selection / '
+                  'distinctness / read-back search on real answer sets and telingo traces',
+        text='Lean theorems: (sentence layer, C15_sentence_mentions_all) for EVERY signature (entity, subject, objects, any names and origins) and '
+             'every argument tuple, the values the sentence mentions with its subject, its objects and the concept itself are, with multiplicity, '
+             'exactly the values of the atom - no argument dropped, none said twice - provided no key of the atom equals a non-key attribute in name '
+             'and value (decidable, evaluated on every real case); C15_sentence_values_are_arguments: those values are the symbol\'s arguments in order; '
+             '(string layer) the final capitalisation changes at most the first character; every value handed to the entity printer occurs in the '
+             'printed text; copula normalisation is total.',
+        note='Trusted: Lean kernel; correspondence of ExplainS.sentence with the real _clingo_symbol_to_sentence (byte for byte, ~1 200 sentences per '
+             'quick run) and of the unit printers. Which of several candidate subjects is chosen (_convert_subject, decided by the declared entities) is a '
+             'parameter of the model. PARTIAL: which atoms get a sentence, distinctness of sentences, the read-back round trip and the per-state '
+             'grouping of telingo traces are decided by the search on real clingo answer sets and telingo traces (sampled, not proved). Genuine '
+             'defect F9 repaired by a fix: commit; F26 known finding.',
+        design='DESIGN.md §0.2, §6 C15'),
     'C08': dict(
         technique='Lean 4 proof about an executable model of origin comparison and key-driven linking + correspondence with the real linker; position-map search on real outputs',
         text='Lean theorems: is_same_origin identifies only origins with the same innermost concept (for any name equality); a link step writes '
@@ -143,18 +150,23 @@ CHECKS = {
              'checked by the search over every rule of corpus / wide-generator outputs, not proved.',
         design='DESIGN.md §6 C08'),
     'C06': dict(
-        technique='Lean 4 proof about an executable model of the term printer (convert_value, choice bounds) + correspondence with the real '
-                  'convert_value; acceptance search with clingo.ast, the clingo grounder and telingo on real outputs',
-        text='Lean theorems: for every value the grammar can deliver (number, variable, placeholder, identifier, quoted text with spaces) and '
-             'every constant table, the printed term is a number, a variable, `_`, a declared constant or ONE string literal without an inner '
-             'quote; choice bounds are printed exactly when present and in the solver\'s order; every rule printed for a range-restricted '
-             'sentence of the core fragment satisfies the solver\'s safety condition (C06_core_safe; the rules are those the rule-by-rule '
-             'correspondence of C01 ties to the real output).',
-        note='PARTIAL: the theorems cover the term layer and, for the core fragment, variable safety. That whole programs are accepted (statement syntax, safety of invented variables, '
-             'telingo\'s restrictions on marked atoms) is decided per run by the solvers themselves on the outputs of the wide / temporal '
-             'generators, dedicated stress forms and the corpus — a search, not a proof. Trusted: Lean kernel; clingo / telingo as acceptance '
-             'oracles; unit correspondence of convert_value. Known findings F12b, F15, F16, F25, F27, F28, F29 (genuine, recorded).',
-        design='DESIGN.md §6 C06'),
+        technique='Lean 4 proof about an executable model of the WHOLE printing layer (every __str__ of ASP_elements: atoms, operations, aggregates, '
+                  'temporal formulas, rules, weak constraints, programs, encodings) against a grammar of the target language, of the term printer '
+                  '(convert_value) and of variable safety of the core fragment; byte-for-byte correspondence with the real printers; acceptance '
+                  'search with clingo.ast, the clingo grounder and telingo on real outputs',
+        text='Lean theorems: (statement syntax, C06_rule_syntax / C06_program_syntax) every well-formed rule object - any names, values, operand counts '
+             'and nesting depth of arithmetic, comparisons, aggregates, choice heads with conditions and bounds, weak constraints, &tel formulas - is '
+             'printed as a statement of the solver\'s grammar, and every encoding as a program; (terms, C06_value) every value the grammar can deliver '
+             'prints as a number, a variable, `_`, a declared constant or ONE string literal; choice bounds are printed exactly when present; '
+             '(safety, C06_core_safe) every rule printed for a range-restricted sentence of the core fragment satisfies the solver\'s safety condition.',
+        note='The printer model (Asp/PrintProg.lean) is compared with the real str() byte for byte on every element tree of every compiled '
+             'specification (both printing modes) and on random trees built from the real classes (~6 500 rules per quick run); the well-formedness '
+             'hypothesis wfRule is evaluated by the model on every real rule (99.6 % of compiled rules; the rest are listed in the evidence). '
+             'PARTIAL: the grammar is over tokens (that the solver\'s lexer splits the printed text into these tokens is validated by clingo\'s parser on '
+             'the same texts, not proved) and relative to the leaves being terms (C06_value); safety of invented variables outside the core fragment '
+             'and telingo\'s restrictions on marked atoms are decided per run by the solvers on generated outputs - a search. Trusted: Lean kernel; '
+             'clingo / telingo as acceptance oracles. Known findings F12b, F15, F16, F25, F27, F28, F29 (genuine, recorded).',
+        design='DESIGN.md §0.2, §6 C06'),
     'C01': dict(
         technique='Lean 4 proof: answer-set semantics (least model of the reduct, choice bounds, constraints) of the emitted rule shapes, Fages\' '
                   'theorem for ranked programs, and equivalence with the direct reading of resolved core sentences; rule-by-rule correspondence '
